@@ -188,17 +188,15 @@ class TagRows:
 
 def _comprehension_over(sx, node, kind, payload, st, ckind):
     # [ {...} for tag in <set of (name, value)> ]: parameters of the tags INSERT; not interpreted further
+    # (scoped to process_tags: the registry is shared by all sidecars)
+    if sx.unit is None or sx.unit.qual != "DBStorage.process_tags":
+        return None
     return [R(st, Conc(TagRows()))]
 
 
 REG.comprehension_over = _comprehension_over
 
 
-def _set_iter(sx, v, st, node):
-    return ("setval", v)
-
-
-REG.set_iter = _set_iter
 REFERENCED = "any_range(0, %s, lambda i: event.tags[i][0] == 'e' and r0.id == bytes.fromhex(event.tags[i][1]))"
 OWN = "r0.pubkey == bytes.fromhex(event.pubkey)"
 process_tags_contract = Contract(
@@ -293,7 +291,7 @@ add_event_contract = Contract(
                  for k in ("StorageError", "AuthenticationError", "EngineError+", "Exception+")},
 )
 add_event_contract.ghost_params = ("r0",)
-add_event = REG.unit(Unit(P, "DBStorage.add_event", add_event_contract, props=["C03", "C06", "C07", "C14", "C16"], ghost_init=ghost_db,
+add_event = REG.unit(Unit(P, "DBStorage.add_event", add_event_contract, props=["C03", "C04", "C05", "C06", "C07", "C14", "C16", "C19"], ghost_init=ghost_db,
                           canaries=[("never-stores", "not result[1]")]))
 add_event.obligation_props = [
     ("sql:insert-only-validated", ["C03", "C16"]), ("sql:insert-only-authorized", ["C14"]), ("sql:insert-is-the-submitted", ["C04", "C03"]),
